@@ -14,22 +14,77 @@ import (
 // -tags verif. A filter in front of the server's rafthttp.Raft implementation drops the raft
 // messages that arrive from blocked replicas, as a cut link would.
 
-// VerifRaftFilter drops incoming raft messages whose sender is blocked.
+// VerifRaftFilter drops incoming raft messages whose sender is blocked, and can hold back
+// messages of given types from one sender to deliver them later (a stalled connection).
 type VerifRaftFilter struct {
 	rafthttp.Raft
-	mu      sync.RWMutex
-	blocked map[uint64]bool
+	mu        sync.RWMutex
+	blocked   map[uint64]bool
+	holdFrom  uint64
+	holdTypes map[raftpb.MessageType]bool
+	held      []raftpb.Message
 }
 
 // Process implements rafthttp.Raft.
 func (f *VerifRaftFilter) Process(ctx context.Context, m raftpb.Message) error {
-	f.mu.RLock()
+	f.mu.Lock()
 	drop := f.blocked[m.From]
-	f.mu.RUnlock()
+	if !drop && f.holdTypes != nil && m.From == f.holdFrom && f.holdTypes[m.Type] {
+		f.held = append(f.held, m)
+		drop = true
+	}
+	f.mu.Unlock()
 	if drop {
 		return nil
 	}
 	return f.Raft.Process(ctx, m)
+}
+
+// SetHold makes the filter keep (instead of delivering) the messages of the given types that arrive
+// from replica `from`; no types = hold nothing (already held messages stay until Release).
+func (f *VerifRaftFilter) SetHold(from uint64, types []raftpb.MessageType) {
+	f.mu.Lock()
+	f.holdFrom = from
+	f.holdTypes = nil
+	if len(types) > 0 {
+		f.holdTypes = make(map[raftpb.MessageType]bool, len(types))
+		for _, t := range types {
+			f.holdTypes[t] = true
+		}
+	}
+	f.mu.Unlock()
+}
+
+// Held returns how many held messages have type t.
+func (f *VerifRaftFilter) Held(t raftpb.MessageType) int {
+	f.mu.RLock()
+	defer f.mu.RUnlock()
+	n := 0
+	for _, m := range f.held {
+		if m.Type == t {
+			n++
+		}
+	}
+	return n
+}
+
+// Release delivers, in arrival order, up to max (0 = all) held messages; only those of type t unless any is set.
+func (f *VerifRaftFilter) Release(t raftpb.MessageType, any bool, max int) int {
+	f.mu.Lock()
+	var out, keep []raftpb.Message
+	for _, m := range f.held {
+		if (any || m.Type == t) && (max == 0 || len(out) < max) {
+			out = append(out, m)
+		} else {
+			keep = append(keep, m)
+		}
+	}
+	f.held = keep
+	f.mu.Unlock()
+	for _, m := range out {
+		f.Raft.Process(context.Background(), m)
+	}
+	return len(out)
 }
 
 // SetBlocked replaces the set of replica ids whose messages are dropped (empty = healed).
